@@ -291,9 +291,20 @@ class PathEnumerator:
                 names |= names_in(t)
         self._invalidate(p, names)
         # boolean constant propagation for flags: x = True / False / None-test results
+        tname, tval = None, None
         if isinstance(st, ast.Assign) and len(st.targets) == 1 and isinstance(st.targets[0], ast.Name):
-            if isinstance(st.value, ast.Constant) and isinstance(st.value.value, bool):
-                p.facts[st.targets[0].id] = st.value.value
+            tname, tval = st.targets[0].id, st.value
+        elif isinstance(st, ast.AnnAssign) and isinstance(st.target, ast.Name) and st.value is not None:
+            tname, tval = st.target.id, st.value
+        if tname is not None:
+            if isinstance(tval, ast.Constant) and isinstance(tval.value, bool):
+                p.facts[tname] = tval.value
+            # None-ness of optionals: `x = None` / `x: Optional[T] = None`, and `x = f(...)` (a constructed value)
+            if isinstance(tval, ast.Constant) and tval.value is None:
+                p.facts[f"{tname} is None"] = True
+            elif isinstance(tval, (ast.Call, ast.BinOp, ast.Tuple, ast.List, ast.Dict, ast.Set, ast.JoinedStr)) or (
+                    isinstance(tval, ast.Constant) and tval.value is not None):
+                p.facts[f"{tname} is None"] = False
         yield p
 
     def _loop(self, st, p: Path) -> Iterator[Path]:
